@@ -83,6 +83,10 @@ type Relation struct {
 	// same message (Go pointer) as that of the named relation of the same type,
 	// whose content it repeats.
 	ShareWith string `json:"share_with,omitempty"`
+	// NoMeta: the type's metadata has no entry for this relation at all (legal
+	// in JSON / protobuf for a relation without a direct assignment; the DSL
+	// parser always writes one). Such a relation is unattributed.
+	NoMeta bool `json:"no_meta,omitempty"`
 }
 
 type Type struct {
@@ -122,12 +126,46 @@ type Model struct {
 // internTable is non-nil while a model with Intern is rendered.
 var internTable map[string]*openfgav1.Userset
 
+// aliased reports whether the protobuf rendering of the plan shares messages
+// (ShareWith, Dup, Intern).
+func (m *Model) aliased() bool {
+	if m.Intern {
+		return true
+	}
+	for _, t := range m.Types {
+		for _, r := range t.Relations {
+			if r.ShareWith != "" {
+				return true
+			}
+			var rec func(e *Expr) bool
+			rec = func(e *Expr) bool {
+				if e == nil {
+					return false
+				}
+				if e.Dup {
+					return true
+				}
+				for _, c := range e.Children {
+					if rec(c) {
+						return true
+					}
+				}
+				return false
+			}
+			if rec(r.Expr) {
+				return true
+			}
+		}
+	}
+	return false
+}
+
 func (m *Model) clone() *Model {
 	c := &Model{Schema: m.Schema, ID: m.ID, Intern: m.Intern}
 	for _, t := range m.Types {
 		ct := &Type{Name: t.Name, Module: t.Module, File: t.File}
 		for _, r := range t.Relations {
-			cr := &Relation{Name: r.Name, Expr: r.Expr.clone(), Module: r.Module, File: r.File, ShareWith: r.ShareWith}
+			cr := &Relation{Name: r.Name, Expr: r.Expr.clone(), Module: r.Module, File: r.File, ShareWith: r.ShareWith, NoMeta: r.NoMeta}
 			cr.Direct = append([]Ref(nil), r.Direct...)
 			ct.Relations = append(ct.Relations, cr)
 		}
@@ -245,6 +283,9 @@ func (m *Model) toProto() *openfgav1.AuthorizationModel {
 			td.Metadata = &openfgav1.Metadata{Relations: map[string]*openfgav1.RelationMetadata{}}
 			for _, r := range t.Relations {
 				td.Relations[r.Name] = exprToProto(r.Expr)
+				if r.NoMeta && len(r.Direct) == 0 && r.Module == "" && r.File == "" && !containsThis(r.Expr) {
+					continue
+				}
 				rm := &openfgav1.RelationMetadata{}
 				for _, d := range r.Direct {
 					rm.DirectlyRelatedUserTypes = append(rm.DirectlyRelatedUserTypes, refToProto(d))
